@@ -29,6 +29,19 @@ EFFECT_NAMES = {
 }
 
 
+def _non_periodic(call):
+    """the call leaves `periodic` at its False default (positional slot 0 / keyword); force= and
+    save_existing= do not matter on the non-periodic path of either sampler"""
+    if call.args:
+        return len(call.args) == 1 and isinstance(call.args[0], ast.Constant) and call.args[0].value is False
+    for k in call.keywords:
+        if k.arg is None:
+            return False
+        if k.arg == "periodic" and not (isinstance(k.value, ast.Constant) and k.value.value is False):
+            return False
+    return True
+
+
 def run(ctx):
     prog = ctx.prog
     res = resolver(prog)
@@ -57,7 +70,7 @@ def run(ctx):
     ta = FA(tf)
     cp = ta.find_calls("self.ns.close_pool")
     ck = ta.find_calls("self.ns.checkpoint")
-    ctx.ob("R-ORDER", "C13.1", tf, "terminate_run: close the pool, then a forced (non-periodic) checkpoint of the live sampler object", len(cp) == 1 and len(ck) == 1 and ta.dominates(cp[0][0], ck[0][0]) and not ck[0][1].args and not ck[0][1].keywords and ta.on_every_normal_path(ck[0][0]), f"`{src(ck[0][1]) if ck else None}`")
+    ctx.ob("R-ORDER", "C13.1", tf, "terminate_run: close the pool, then a forced (non-periodic) checkpoint of the live sampler object", len(cp) == 1 and len(ck) == 1 and ta.dominates(cp[0][0], ck[0][0]) and _non_periodic(ck[0][1]) and ta.on_every_normal_path(ck[0][0]), f"`{src(ck[0][1]) if ck else None}`")
     ctx.floor("C13.1", 5)
 
     # ------------------------------------------------------------------
